@@ -32,6 +32,24 @@ Theorem C12_header : forall cfg c p name ln bases kws body decs es,
 Proof. exact classdef_shape. Qed.
 Print Assumptions C12_header.
 
+(* the statement list of a class statement: creation, the loader (the body run against a dictionary), installation of the
+   dictionary's items on the created class, and only THEN the decorators - the last listed first, each applied to the class
+   name as bound at that moment and rebinding it (a decorator sees the finished members) *)
+Theorem C12_decorators_after_members : forall cfg c p name ln bases kws body decs es,
+  lower_stmt cfg c p (SClassDef name ln bases kws body decs) = inl es ->
+  exists create loader_body load decorated,
+    get_load_name (c_nsp c) [] false name = inl load /\
+    rmap (fun d => rbind (tr (c_nsp c) d) (fun d' => get_assign (c_nsp c) name (call d' [load]))) (rev decs) = inl decorated /\
+    length decorated = length decs /\
+    es = [create;
+          NamedExpr (ol "loader" (path_str p)) loader_body;
+          ListComp (call (Name "setattr") [load; Name (ol "key" (path_str p)); Name (ol "value" (path_str p))])
+                   [(ETuple [Name (ol "key" (path_str p)); Name (ol "value" (path_str p))],
+                     call (Attribute (call (Name (ol "loader" (path_str p))) []) "items") [], [], false)]]
+         ++ decorated.
+Proof. exact classdef_decorators_last. Qed.
+Print Assumptions C12_decorators_after_members.
+
 Example C12_nonvacuous :
   run_stores nat [("a", 1); ("b", 2); ("a", 3); ("c", 4); ("b", 5)]%string [] = [("a", 3); ("b", 5); ("c", 4)]%string.
 Proof. exact members_example. Qed.
